@@ -165,6 +165,10 @@ CONFIGS = [
     {'denied_cidrs': []},
     {'denied_cidrs': ['127.0.0.0/8', 'not-a-cidr', '169.254.169.254/32',
                       '::1']},
+    # networks written the way operators write them: an address of the
+    # network with its prefix length (host bits set)
+    {'denied_cidrs': ['127.0.0.1/8', '169.254.169.254/16', '10.1.2.3/8',
+                      '192.168.1.1/16', '::1/128', 'fe80::1/10']},
 ]
 
 
@@ -266,6 +270,7 @@ def run_case(case):
     install()
     from mistral import exceptions as exc
     from mistral.actions import std_actions
+    from mistral.notifiers import base as nbase
     from mistral.notifiers.publishers import webhook
     from mistral.utils import egress
     from mistral_lib.actions import context as actx
@@ -336,18 +341,40 @@ def run_case(case):
                                url, why, item['addrs'], conf or 'default')})
         # (2) the real client under the egress sanitizer
         drv = drivers[n % 3]
-        _STATE['connects'] = []
-        _STATE['lookups'] = []
-        _STATE['active'] = True
-        err = None
-        try:
+
+        def drive():
             if drv == 'http':
                 std_actions.HTTPAction(url=url, timeout=1).run(ctx)
             elif drv == 'mistral_http':
                 std_actions.MistralHTTPAction(url=url, timeout=1).run(ctx)
             else:
-                webhook.WebhookPublisher().publish(
+                # the publisher object the notifier uses: one per process
+                nbase.get_notification_publisher('webhook').publish(
                     None, 'ex', {'a': 1}, 'EV', None, url=url)
+        if must and why != 'scheme' and (n // 3) % 2 == 0:
+            # state left over in the process: the very same URL was used
+            # before, while the operator's configuration still allowed it
+            # (nothing denied, no allow-list); the configuration in force
+            # *now* decides
+            _set_conf({'denied_cidrs': []})
+            _STATE['connects'] = []
+            _STATE['lookups'] = []
+            _STATE['active'] = True
+            try:
+                drive()
+            except BaseException:   # noqa
+                pass
+            finally:
+                _STATE['active'] = False
+            _set_conf(conf)
+            res['monitor_evaluations']['reused-url'] = \
+                res['monitor_evaluations'].get('reused-url', 0) + 1
+        _STATE['connects'] = []
+        _STATE['lookups'] = []
+        _STATE['active'] = True
+        err = None
+        try:
+            drive()
         except BaseException as e:   # noqa
             err = e
         finally:
